@@ -206,6 +206,8 @@ def cases(tier, seed):
     shp = shapes(tier)
     mode = 'block' if thorough else 'cross'
     pairs = [(dh, a) for dh in DHS_Q for a in ANCHORS_Q]
+    # spacings whose cell origins need more than six decimals (binary fractions 1/128, 1/1024; 1/3; an arc-minute)
+    pairs += [(0.0078125, (0.0, 0.0)), (0.0078125, (-0.5, 1.0)), (0.0009765625, (10.0, -20.0)), (1.0 / 3.0, (0.0, 0.0)), (1.0 / 60.0, (10.0, 45.0))]
     if thorough:
         pairs += SEED_BLOCKS                              # every seed-selectable block
     else:
